@@ -146,8 +146,16 @@ func RunH(t *testing.T, sc Script, o CaseOpts) (ex *Exec) {
 	noteCurrent(sc)
 	synctest.Test(t, func(t *testing.T) {
 		var w Driver
+		idle := time.Duration(0)
 		if o.Wire {
-			w = NewWWorld(sc.Cfg, o.WOpts)
+			wo := o.WOpts
+			if sc.Cfg.IdleMs > 0 {
+				// one nanosecond off the millisecond grid: an idle deadline never
+				// coincides with a frame tick or with a scripted instant
+				wo.IdleTimeout = time.Duration(sc.Cfg.IdleMs)*time.Millisecond + time.Nanosecond
+				idle = wo.IdleTimeout
+			}
+			w = NewWWorld(sc.Cfg, wo)
 		} else {
 			hw := NewHWorld(sc.Cfg)
 			if o.Setup != nil {
@@ -158,9 +166,11 @@ func RunH(t *testing.T, sc Script, o CaseOpts) (ex *Exec) {
 		ex = NewExec(w, sc.Cfg)
 		ex.Ex = o.Ex
 		ex.Registry = o.Registry
+		ex.Idle = idle
 		ex.Gauge0 = sessionGauge()
 		ex.G0 = runtime.NumGoroutine()
 		ex.Run(sc)
+		ex.Finish()
 		w.Shutdown()
 	})
 	return ex
@@ -228,7 +238,10 @@ func violationsFor(ex *Exec, prop string) (mine []Violation, foreign []Violation
 	return
 }
 
-func (mc ModelCheck) Run(t *testing.T) {
+func (mc ModelCheck) Run(t *testing.T) { mc.Run2(t, nil) }
+
+// Run2 is Run with a custom script generator.
+func (mc ModelCheck) Run2(t *testing.T, gen func(*rapid.T) Script) {
 	col := NewCollector(mc.Prop, mc.Part, mc.Rule)
 	t.Cleanup(col.Write)
 	opts := CaseOpts{Registry: mc.Registry, Ex: exclusionsFromFindings(), Wire: mc.Wire}
@@ -247,7 +260,12 @@ func (mc ModelCheck) Run(t *testing.T) {
 		return
 	}
 	rapid.Check(t, func(rt *rapid.T) {
-		sc := mc.Profile.GenScript(rt)
+		var sc Script
+		if gen != nil {
+			sc = gen(rt)
+		} else {
+			sc = mc.Profile.GenScript(rt)
+		}
 		if mc.Mutate != nil {
 			mc.Mutate(&sc)
 		}
@@ -258,6 +276,10 @@ func (mc ModelCheck) Run(t *testing.T) {
 		col.Case(sc.Digest(), nt, ex.Labels, func() any { return sc.Pretty() })
 		if len(foreign) > 0 && len(mine) == 0 {
 			col.Foreign++
+			if os.Getenv("VERIF_DEBUG_FOREIGN") != "" {
+				fmt.Println("FOREIGN:", foreign[0])
+				saveFailure(mc.Prop+".foreign", sc, foreign)
+			}
 		}
 		if len(mine) > 0 {
 			col.Violations++
